@@ -186,6 +186,20 @@ var ruleNarrow = &Rule{
 							}
 						}
 					}
+					// … or the value is computed from digit values: the range of
+					// the expression, from the exact ranges of the pure character
+					// functions in it and the tests that hold here, lies below the
+					// limit (`byte(merge(c1, c2))` with c1, c2 the values of two
+					// hexadecimal digits, both tested >= 0)
+					if !bounded {
+						lim := int64(256)
+						if dt.Kind() == types.Uint16 || dt.Kind() == types.Int16 {
+							lim = 65536
+						}
+						if iv, ok := p.narrowRange(cv.X, b, nil, 0); ok && iv.lo >= 0 && iv.hi < lim {
+							bounded = true
+						}
+					}
 					if bounded {
 						continue
 					}
@@ -281,7 +295,7 @@ var ruleTokenRange = &Rule{
 				return judge(fn, x.X, fs, depth+1)
 			case *ssa.Extract:
 				if c, ok := x.Tuple.(*ssa.Call); ok && x.Index == 0 {
-					if sc := c.Call.StaticCallee(); sc != nil && fnPkgPath(sc) == pkgParser && sc.Blocks != nil && sc.Signature.Results().Len() == 2 && isRune(sc.Signature.Results().At(0).Type()) {
+					if sc := c.Call.StaticCallee(); sc != nil && fnPkgPath(sc) == pkgParser && sc.Blocks != nil && sc.Signature.Results().Len() >= 2 && isRune(sc.Signature.Results().At(0).Type()) {
 						addFn(sc)
 						return ""
 					}
@@ -367,3 +381,255 @@ var ruleTokenRange = &Rule{
 }
 
 func init() { register(ruleTokenRange) }
+
+type ivl struct{ lo, hi int64 }
+
+// narrowRange: an interval that contains v at block at (nil: no branch facts),
+// with the parameters in env bound to intervals. Constants, the exact value
+// ranges of pure one-character functions of the module (as in R-CHARCLASS),
+// +, -, <<const, |, & over non-negative operands, merges, calls of one-block
+// helpers, narrowed by the comparisons with constants that dominate at.
+func (p *Prog) narrowRange(v ssa.Value, at *ssa.BasicBlock, env map[*ssa.Parameter]ivl, depth int) (ivl, bool) {
+	if depth > 8 {
+		return ivl{}, false
+	}
+	iv, ok := p.narrowRange0(v, at, env, depth)
+	if !ok {
+		return iv, false
+	}
+	if at != nil {
+		for _, f := range factsAt(at) {
+			c, isB := f.Cond.(*ssa.BinOp)
+			if !isB || !sameValue(c.X, v) {
+				continue
+			}
+			k, isK := constInt(c.Y)
+			if !isK {
+				continue
+			}
+			op := c.Op
+			if !f.Truth {
+				switch op {
+				case token.LSS:
+					op = token.GEQ
+				case token.LEQ:
+					op = token.GTR
+				case token.GTR:
+					op = token.LEQ
+				case token.GEQ:
+					op = token.LSS
+				case token.EQL:
+					op = token.NEQ
+				case token.NEQ:
+					op = token.EQL
+				}
+			}
+			switch op {
+			case token.LSS:
+				iv.hi = min(iv.hi, k-1)
+			case token.LEQ:
+				iv.hi = min(iv.hi, k)
+			case token.GTR:
+				iv.lo = max(iv.lo, k+1)
+			case token.GEQ:
+				iv.lo = max(iv.lo, k)
+			case token.EQL:
+				iv.lo, iv.hi = max(iv.lo, k), min(iv.hi, k)
+			}
+		}
+	}
+	return iv, iv.lo <= iv.hi
+}
+
+func (p *Prog) narrowRange0(v ssa.Value, at *ssa.BasicBlock, env map[*ssa.Parameter]ivl, depth int) (ivl, bool) {
+	if k, ok := constInt(v); ok {
+		return ivl{k, k}, true
+	}
+	const big = int64(1) << 40
+	switch x := v.(type) {
+	case *ssa.Parameter:
+		iv, ok := env[x]
+		return iv, ok
+	case *ssa.Convert:
+		// widening integer conversions of a non-negative value keep it
+		st, ok1 := x.X.Type().Underlying().(*types.Basic)
+		dt, ok2 := x.Type().Underlying().(*types.Basic)
+		if !ok1 || !ok2 || st.Info()&types.IsInteger == 0 || dt.Info()&types.IsInteger == 0 {
+			return ivl{}, false
+		}
+		if dt.Kind() == types.Uint8 || dt.Kind() == types.Int8 || dt.Kind() == types.Uint16 || dt.Kind() == types.Int16 {
+			return ivl{}, false
+		}
+		iv, ok := p.narrowRange(x.X, at, env, depth+1)
+		if !ok || iv.lo < 0 || iv.hi > 0x7fffffff {
+			return ivl{}, false
+		}
+		return iv, true
+	case *ssa.Phi:
+		var out ivl
+		for i, e := range x.Edges {
+			iv, ok := p.narrowRange(e, nil, env, depth+1)
+			if !ok {
+				return ivl{}, false
+			}
+			if i == 0 {
+				out = iv
+			} else {
+				out.lo, out.hi = min(out.lo, iv.lo), max(out.hi, iv.hi)
+			}
+		}
+		return out, len(x.Edges) > 0
+	case *ssa.BinOp:
+		l, ok1 := p.narrowRange(x.X, at, env, depth+1)
+		r, ok2 := p.narrowRange(x.Y, at, env, depth+1)
+		if !ok1 || !ok2 {
+			return ivl{}, false
+		}
+		small := func(i ivl) bool { return i.lo >= 0 && i.hi < big }
+		mid := func(i ivl) bool { return i.lo > -big && i.hi < big }
+		switch x.Op {
+		case token.ADD:
+			return ivl{l.lo + r.lo, l.hi + r.hi}, mid(l) && mid(r)
+		case token.SUB:
+			return ivl{l.lo - r.hi, l.hi - r.lo}, mid(l) && mid(r)
+		case token.SHL:
+			if r.lo == r.hi && r.lo >= 0 && r.lo < 16 && small(l) {
+				return ivl{l.lo << uint(r.lo), l.hi << uint(r.lo)}, true
+			}
+		case token.OR:
+			if small(l) && small(r) {
+				m := int64(1)
+				for m <= max(l.hi, r.hi) {
+					m <<= 1
+				}
+				return ivl{max(l.lo, r.lo), m - 1}, true
+			}
+		case token.AND:
+			if small(l) && small(r) {
+				return ivl{0, min(l.hi, r.hi)}, true
+			}
+		}
+		return ivl{}, false
+	case *ssa.Call:
+		g := x.Call.StaticCallee()
+		if g == nil || x.Call.IsInvoke() || !inModule(g) || g.Blocks == nil || !ccPure(g) {
+			return ivl{}, false
+		}
+		// a pure function of one character: its exact range over every input
+		if len(g.Params) == 1 {
+			if bt, ok := g.Signature.Results().At(0).Type().Underlying().(*types.Basic); ok && bt.Info()&types.IsInteger != 0 {
+				e := &ccEval{p: p}
+				full := ccFull()
+				if f, err := e.run(g, []ccPW{ccIdent(full)}, full, 0); err == nil && len(f) > 0 {
+					var dom ccSet
+					out := ivl{1 << 62, -(1 << 62)}
+					for _, q := range f {
+						dom = append(dom, ccPiece{lo: q.lo, hi: q.hi})
+						for _, c := range []int64{q.lo, q.hi} {
+							val := q.a*c + q.b
+							out.lo, out.hi = min(out.lo, val), max(out.hi, val)
+						}
+					}
+					if dom.size() == full.size() {
+						return out, true
+					}
+				}
+			}
+		}
+		// a one-block helper over integers: its result with the parameters
+		// bound to the ranges of the arguments
+		if len(g.Blocks) == 1 && len(x.Call.Args) == len(g.Params) {
+			sub := map[*ssa.Parameter]ivl{}
+			for i, a := range x.Call.Args {
+				iv, ok := p.narrowRange(a, at, env, depth+1)
+				if !ok {
+					return ivl{}, false
+				}
+				sub[g.Params[i]] = iv
+			}
+			if ret, ok := g.Blocks[0].Instrs[len(g.Blocks[0].Instrs)-1].(*ssa.Return); ok && len(ret.Results) == 1 {
+				return p.narrowRange(ret.Results[0], nil, sub, depth+1)
+			}
+		}
+	}
+	return ivl{}, false
+}
+
+// rangeAtBlock: like narrowRange, but a block several branches lead to takes
+// the union over its ways in of what each way's tests allow (`case r < ' ' ||
+// r == 0x7f:`); a value nothing else is known about starts as any 32-bit int.
+func (p *Prog) rangeAtBlock(v ssa.Value, b *ssa.BasicBlock) (ivl, bool) {
+	w := v
+	if cv, ok := v.(*ssa.Convert); ok {
+		// the tests speak about the value before it is narrowed for writing
+		if iv, ok := p.rangeAtBlock(cv.X, b); ok {
+			return iv, true
+		}
+	}
+	base, ok := p.narrowRange0(w, nil, nil, 0)
+	if !ok {
+		base = ivl{-(1 << 31), 1<<31 - 1}
+	}
+	one := func(fs []Fact) (ivl, bool) { return narrowByFacts(base, w, fs) }
+	if len(b.Preds) <= 1 {
+		return one(factsAt(b))
+	}
+	var out ivl
+	n := 0
+	for _, pr := range b.Preds {
+		iv, ok := one(edgeFacts(pr, succIndex(pr, b)))
+		if !ok {
+			continue // this way in is closed
+		}
+		if n == 0 {
+			out = iv
+		} else {
+			out.lo, out.hi = min(out.lo, iv.lo), max(out.hi, iv.hi)
+		}
+		n++
+	}
+	return out, n > 0
+}
+
+func narrowByFacts(iv ivl, v ssa.Value, fs []Fact) (ivl, bool) {
+	for _, f := range fs {
+		c, isB := f.Cond.(*ssa.BinOp)
+		if !isB || !sameValue(c.X, v) {
+			continue
+		}
+		k, isK := constInt(c.Y)
+		if !isK {
+			continue
+		}
+		op := c.Op
+		if !f.Truth {
+			switch op {
+			case token.LSS:
+				op = token.GEQ
+			case token.LEQ:
+				op = token.GTR
+			case token.GTR:
+				op = token.LEQ
+			case token.GEQ:
+				op = token.LSS
+			case token.EQL:
+				op = token.NEQ
+			case token.NEQ:
+				op = token.EQL
+			}
+		}
+		switch op {
+		case token.LSS:
+			iv.hi = min(iv.hi, k-1)
+		case token.LEQ:
+			iv.hi = min(iv.hi, k)
+		case token.GTR:
+			iv.lo = max(iv.lo, k+1)
+		case token.GEQ:
+			iv.lo = max(iv.lo, k)
+		case token.EQL:
+			iv.lo, iv.hi = max(iv.lo, k), min(iv.hi, k)
+		}
+	}
+	return iv, iv.lo <= iv.hi
+}
